@@ -34,3 +34,12 @@ func (q *Queue) VerifC15All() []VerifC15Ctr {
 	}
 	return r
 }
+
+// VerifC15ClearKilled forgets that a crunch-run process of this container was once sent SIGTERM on
+// this VM. The stub keeps that flag forever, so a container that is started again on the same VM
+// would exit at once, every time (a real crunch-run process has no memory of its predecessors).
+func (svm *StubVM) VerifC15ClearKilled(uuid string) {
+	svm.Lock()
+	defer svm.Unlock()
+	delete(svm.killing, uuid)
+}
